@@ -154,8 +154,7 @@ Mu(t, x, env) ==
   ELSE LET s == Shape(t, x, env) IN R(s.piece, KMul(env.h, s.v))
 
 \* exact value at a standard point, or Irr when it is not rational (engine-level models)
-Irr == <<3, 0, 1>>
-MuX(t, xq) == LET e == Mu(t, P(xq, 0), ValEnv(t, P(xq, 0))).v IN IF IsQ(e) THEN QV(e) ELSE Irr
+MuX(t, xq) == IF IsBad(xq) THEN xq ELSE LET e == Mu(t, P(xq, 0), ValEnv(t, P(xq, 0))).v IN IF IsQ(e) THEN QV(e) ELSE Irr
 
 \* ---- structural facts -------------------------------------------------------------------
 MonotonicKinds == {"Arc", "Concave", "Ramp", "Sigmoid", "SShape", "ZShape"}
